@@ -7,10 +7,12 @@ var Registry = map[string]func(*core.Ctx){
 	"C01": C01,
 	"C05": C05,
 	"C06": C06,
+	"C09": C09,
 	"C12": C12,
 	"C13": C13,
 	"C14": C14,
 	"C15": C15,
+	"C16": C16,
 	"C17": C17,
 	"C20": C20,
 }
